@@ -41,6 +41,15 @@ def run(rep, tier, seed, b):
                 smis.append('[%sH%d]' % (el, 1) + '(C)' * max(0, k - 2) + 'C')
     smis += ['[C+](C)(C)(C)C', '[N+](C)(C)(C)(C)C', '[O-](C)C', '[Fe](C)(C)(C)(C)(C)(C)(C)(C)C', '[Si](C)(C)(C)(C)C', 'c1ccccc1(C)C', 'Cn1cccc1', 'C[n]1(C)cccc1']
     items = [(tabs[rng.randrange(len(tabs))], x, True, False) for x in smis]
+    # aromatic rings whose RING-CLOSURE atom is the one at the boundary: the table gives that element one unit less than / exactly what it needs
+    # (a ring-closure bond is stored twice in the graph; counting it twice or not at all moves exactly these verdicts)
+    dflt = sf().get_preset_constraints('default')
+    for x, el, need in (('n1ccccc1', 'N', 3), ('c1ccccn1', 'N', 3), ('[nH]1cccc1', 'N', 3), ('c1ccc[nH]1', 'N', 3), ('o1cccc1', 'O', 2), ('c1ccco1', 'O', 2), ('s1cccc1', 'S', 2),
+                        ('c1ccc2ccccc2c1', 'C', 4), ('c12ccccc1cccc2', 'C', 4), ('c1ccccc1', 'C', 4), ('Cc1ccccc1', 'C', 4), ('c1ccc(C)cc1', 'C', 4), ('n1ccncc1', 'N', 3),
+                        ('O=n1ccccc1', 'N', 5), ('c1ccn(=O)cc1', 'N', 5), ('c1cc2ccc1CC2', 'C', 4), ('n1c2ccccc2cc1', 'N', 3), ('p1ccccc1', 'P', 3), ('c1cc[se]c1', 'Se', 2)):
+        for cap in (need - 1, need, need + 1):
+            t = dict(dflt); t[el] = cap
+            items.append((t, x, True, False))
     res = core.pmap('p_c06', 'work2', items, chunk=300)
     for it, r in zip(items, res):
         rep.evaluations += 1
@@ -112,6 +121,9 @@ def run(rep, tier, seed, b):
                 kv[1] = int(kv[1])
         ops = [['new', d0], ['set', ['held', 0]]] + [['enc', p_, True, False] for p_ in rng.sample(probes, 4)]
         ops += [['mut', 0, ['setitem', rng.choice(['N', 'S', 'O', 'C', 'Si', '?', 'P']), rng.choice([0, 1, 2, 5, 7])]] for _ in range(2)]
+        if rng.random() < 0.5:
+            # a set call that is REJECTED (invalid key or value somewhere in the dict): the table in force, and every verdict, stay as they were
+            ops += [['new', H.random_dict(rng, valid=False)], ['set', ['held', 1]]]
         tail = [['enc', p_, True, False] for p_ in probes]
         im = H.impl_run(ops + [['get']] + tail)
         rep.evaluations += 1
@@ -124,7 +136,7 @@ def run(rep, tier, seed, b):
         if isinstance(ref, list) and im[len(ops) + 1:] != ref[2:]:
             j = next(i for i, (a, c) in enumerate(zip(im[len(ops) + 1:], ref[2:])) if a != c)
             rep.oracle_failures.append({'clause': 'strict encoding follows the constraints in force (as reported by get_semantic_constraints), also when tables change between calls '
-                                                  'and when the caller later edits the dict it passed',
+                                                  'when the caller later edits the dict it passed, and after a set call that was rejected',
                                         'input': {'ops': ops + [['get'], tail[j]]}, 'impl': im[len(ops) + 1 + j], 'expected': ref[2 + j]})
     for it, r in list(zip(items, res))[:4]:
         rep.sample({'smiles': it[1], 'strict': r['impl'], 'independent_count_says_violation': (r.get('c06') or {}).get('violates')})
